@@ -536,7 +536,8 @@ def _get_map(options):
     map_func = _maps[options['map']]
 
     if map_func == mpi_pmap:
-        map_kw = options['mpi_options']
+        # A copy: the solvers add their own entries to it.
+        map_kw = dict(options['mpi_options'])
     else:
         map_kw = {}
 
